@@ -76,6 +76,12 @@ def layout_program(rng):
         '( e s1 0\n)',
         'e p1 0 |\ncat',
         'e a1 0 &&\ne a2 0 ||\ne a3 0',
+        # constructs that switch the tokenizer into "arithmetic" reading, followed by a here-document in the same text: the switch must
+        # be over by then in every delivery mode (stdin gets a fresh tokenizer per command, a file does not)
+        'echo "@leg $[1+2]"\ncat <<EOF\n@hd after legacy arith\nEOF', '(( x = 1 << 2 )); echo "@x $x"\ncat <<EOF\n@hd after arith cmd $x\nEOF',
+        'echo "@ar $(( 1 << 3 ))"\ncat <<-EOF\n\t@hd after arith expansion\n\tEOF', '((e n1 0); e n2 0)\ncat <<EOF\n@hd after nested subshell\nEOF',
+        # a continuation followed by an empty / blank line (the joined line ends there), then line numbers
+        'echo "@c" a\\\n\necho "@ln $LINENO"', 'echo "@c" b\\\n   \necho "@ln $LINENO"', 'e k1 0 && \\\n\\\ne k2 0\necho "@ln $LINENO"',
     ]
     for _ in range(rng.randint(1, 4)):
         pos = rng.randrange(2, len(out) + 1)
@@ -111,6 +117,14 @@ def bash_valid(prog):
     return p.returncode == 0
 
 
+def double_paren_then_heredoc(prog):
+    for ln, line in enumerate(prog.split("\n")):
+        i = line.find("((")
+        if i >= 0 and not line.startswith("#") and "))" not in line[i:] and "$((" not in line:
+            return "<<" in prog.split("\n", ln + 1)[-1] if ln + 1 < prog.count("\n") + 1 else False
+    return False
+
+
 def judge_modes(run, prog):
     if not bash_valid(prog):
         run.count("generated_program_rejected_by_bash_n")
@@ -133,6 +147,14 @@ def judge_modes(run, prog):
         cl = None
         if kind == "lineno" and mode in ("eval", "source", "stdin", "c"):
             cl = "lineno-in-%s" % mode
+        if mode != "stdin" and double_paren_then_heredoc(prog):
+            # open finding C15-F2: `((` that opens nested subshells leaves the tokenizer reading "arithmetic"; a later `<<` in the same text
+            # is then not a here-document (stdin delivery re-creates the tokenizer per command and is not affected)
+            kf = run.findings.match_signature("heredoc-after-unclosed-double-paren")
+            if kf:
+                run.findings.report(kf)
+                run.count("known:" + kf["id"])
+                continue
         kf = run.findings.match_signature(cl) if cl else None
         if kf and same_modulo_lineno(ob, oh):
             run.findings.report(kf)
@@ -189,7 +211,7 @@ def completeness_layer(run, progs):
     n_more = 0
     for pre, t, dec in zip(items, truth, res["decisions"]):
         run.evaluations += 1
-        last = pre.rstrip("\n").split("\n")[-1]
+        last = (pre[:-1] if pre.endswith("\n") else pre).split("\n")[-1]      # (only the prefix's own final newline is dropped: a blank last line ends a continuation)
         nbs = len(last) - len(last.rstrip("\\"))
         if nbs % 2 == 1 and not last.lstrip().startswith("#"):
             # the prefix ends in a line continuation: unfinished by definition (`bash -n` is lenient about it at EOF)
